@@ -32,10 +32,11 @@ def build(img, *, cluster_size=1 << 20, file_id=0, P=None, size_bytes=None, hdr_
     hdr_cells = -(-(64 + 4 * n) // cell)  # header + BAT occupy this many cells
     if ver == 2:
         raw = ents
-        first = min([e for e in ents if e] + [max(1, -(-(64 + 4 * n) // cluster_size))])
-        top = (max(ents + [0]) + 1) if P is None else (P + 1)
+        hdr_clusters = max(1, -(-(64 + 4 * n) // cluster_size))
+        first = hdr_clusters                      # m_FirstBlockOffset: where the data blocks start (header + BAT, rounded up)
+        top = max((max(ents + [0]) + 1) if P is None else (P + 1), hdr_clusters)
         assert all(e == 0 or e * cluster_size >= 64 + 4 * n for e in ents), "cluster overlaps header"
-        data = (cluster_size, top * cluster_size - cluster_size)
+        data = (hdr_clusters * cluster_size, (top - hdr_clusters) * cluster_size)
     else:
         assert all(e == 0 or e >= hdr_cells for e in ents), "cluster overlaps header"
         raw = [e * (cell // 512) for e in ents]
